@@ -316,6 +316,11 @@ def local_values(body, name):
         l_ = strip(a["l"])
         if l_.get("k") == "path" and l_["res"].get("local") == name:
             out += tails(a["r"])
+    # `x += e`: e contributes to x's value
+    for a in find(body, "assignop"):
+        l_ = strip(a["l"])
+        if l_.get("k") == "path" and l_["res"].get("local") == name:
+            out += tails(a["r"])
     return out
 
 
